@@ -301,8 +301,16 @@ func (r *concRun) peerScript(rng *rand.Rand, stop <-chan struct{}) {
 		}
 	}
 	switch r.cfg.Closer {
-	case "peerclose":
-		send(ws.Frame{Fin: true, Op: ws.OpClose, Payload: ws.ClosePayload(4001, "peer says bye")})
+	case "peerclose", "bothclose": // bothclose: the local Close and the peer's own Close frame cross (two close-frame writers at once)
+		reason := "peer says bye"
+		if rng.Intn(3) == 0 {
+			reason = reasonBytes("badutf8", "p", 100+rng.Intn(24)) // up to 123 bytes that are not valid UTF-8: echoed verbatim
+		}
+		if rng.Intn(5) == 0 {
+			send(ws.Frame{Fin: true, Op: ws.OpClose}) // no status: the echo has an empty body too
+		} else {
+			send(ws.Frame{Fin: true, Op: ws.OpClose, Payload: ws.ClosePayload(4001, reason)})
+		}
 	case "protoerr":
 		// a protocol violation makes the library write a Close frame (1002) on its own while writers are still active
 		send(ws.Frame{Fin: true, Rsv2: true, Op: ws.OpText, Payload: []byte("rsv2")})
@@ -449,7 +457,7 @@ func runConc(cfg concCfg, rep *Report, tr *ws.Tracer) *concRun {
 				})
 				if err != nil {
 					r.libGotErr = err
-					if cfg.Closer == "protoerr" || cfg.Closer == "toobig" || cfg.Closer == "peerclose" {
+					if cfg.Closer == "protoerr" || cfg.Closer == "toobig" || cfg.Closer == "peerclose" || cfg.Closer == "bothclose" {
 						// What an application does when its read loop fails: it ends the connection.  (After an error-triggered Close
 						// frame the library leaves the connection open; writers queued behind an abandoned Writer would wait for
 						// the message lock until then.)  The short delay keeps the window in which writers race the Close frame.
@@ -479,8 +487,16 @@ func runConc(cfg concCfg, rep *Report, tr *ws.Tracer) *concRun {
 		time.Sleep(time.Duration(rng.Intn(1500)) * time.Microsecond)
 		t0 := time.Now()
 		switch cfg.Closer {
-		case "close":
-			closeErr = c.Close(websocket.StatusCode(1000+rng.Intn(4)), "bye")
+		case "close", "bothclose":
+			reason := "bye"
+			if rng.Intn(3) == 0 {
+				reason = reasonBytes("badutf8", "b", 100+rng.Intn(24))
+			}
+			code := websocket.StatusCode(1000 + rng.Intn(4))
+			if rng.Intn(5) == 0 {
+				code, reason = websocket.StatusNoStatusRcvd, "" // a Close frame with an empty body
+			}
+			closeErr = c.Close(code, reason)
 		case "closenow":
 			closeErr = c.CloseNow()
 		case "closebad":
@@ -526,7 +542,7 @@ func runConc(cfg concCfg, rep *Report, tr *ws.Tracer) *concRun {
 	}
 	close(stopPeer)
 	pwg.Wait()
-	if cfg.Closer != "close" && cfg.Closer != "closenow" && cfg.Closer != "closebad" {
+	if cfg.Closer != "close" && cfg.Closer != "bothclose" && cfg.Closer != "closenow" && cfg.Closer != "closebad" {
 		// give the reader a moment to drain what the peer sent, then end the connection
 		time.Sleep(time.Duration(200+rng.Intn(800)) * time.Microsecond)
 	}
@@ -628,7 +644,7 @@ func genConcCfg(seed int64, i int) concCfg {
 		Writers:   1 + rng.Intn(3),
 		Pingers:   rng.Intn(3),
 		Reader:    pick("loop", "loop", "loop", "closeread", "none"),
-		Closer:    pick("close", "close", "closenow", "ctx", "peerclose", "none", "protoerr", "toobig", "policy", "closebad"),
+		Closer:    pick("close", "close", "closenow", "ctx", "peerclose", "bothclose", "none", "protoerr", "toobig", "policy", "closebad"),
 		PeerEcho:  pick("early", "early", "late", "never"),
 		PeerPongs: pick("normal", "normal", "foreign", "withhold", "dup"),
 		Closer2:   pick("", "", "closenow", "close"),
